@@ -121,6 +121,18 @@ pub struct Ctx {
 }
 
 impl Ctx {
+    /// Pins this worker process (all its threads) to one CPU. The controlled scheduler runs
+    /// one thread at a time; on one CPU a baton hand-over is a plain context switch instead of
+    /// a cross-CPU wake-up (which is very expensive inside a VM).
+    pub fn pin_to_one_cpu(&self) {
+        unsafe {
+            let ncpu = libc::sysconf(libc::_SC_NPROCESSORS_ONLN).max(1) as usize;
+            let mut set: libc::cpu_set_t = std::mem::zeroed();
+            libc::CPU_SET(self.worker % ncpu, &mut set);
+            libc::sched_setaffinity(0, std::mem::size_of::<libc::cpu_set_t>(), &set);
+        }
+    }
+
     pub fn quick(&self) -> bool {
         self.tier == Tier::Quick
     }
